@@ -2,7 +2,7 @@ import GrVerif.Proofs.ShapeStream
 import GrVerif.Proofs.IndexPerm
 import GrVerif.Proofs.PassGid
 /-!
-# C03 — every returned segment exposes a well-formed glyph stream   (partial: left-to-right pipeline without bidi/justification)
+# C03 — every returned segment exposes a well-formed glyph stream   (partial: the pipeline without mirroring and justification)
 
 The segment is modelled as a heap of slot records linked by indices (`Model/Seg.lean`); `Linked s l` says that the list
 `l` is the glyph stream: `first`/`last` are its ends, `next`/`prev` link exactly its consecutive members, no slot occurs
@@ -21,7 +21,7 @@ font (any passes, state tables, rules, constraint and action programs), every te
 `initSeg_wf` (`read_text`), `runFSM_spec` (the matcher only puts cursor positions into the slot map), `findNDoRule_spec`,
 `adjustSlot_spec`, `ruleLoop_spec`, `runPass_spec`, `runRange_spec`, `reassoc_wf`.
 
-Not covered by a theorem (correspondence and end-to-end predicate only): `reverseSlots`, the bidi pass, `linkClusters`,
+Not covered by a theorem (correspondence and end-to-end predicate only): mirroring, `linkClusters`,
 index assignment (`associateChars` assigns 0..n-1 in stream order – modelled in `Model/Assoc.lean` as list positions),
 positions being finite, glyph ids below `numGlyphs`.
 -/
@@ -194,6 +194,10 @@ example : Pass.gidHypCheck { passes := #[], ipos := 0, classes := #[[3, 12], [1]
 /-- every run of passes, from any well-formed segment (exported for the audit) -/
 theorem passes_keep_stream (passes : Array Pass.PassT) (c : Ctx) (lo hi fuel : Nat) (h : Pass.WF c.seg) {c' : Ctx}
     (e : Pass.runRange passes c lo hi fuel = .ok (some c')) : Pass.WF c'.seg := Pass.runRange_spec passes c lo hi fuel h e
+
+/-- every call of `Silf::runGraphite`, with the bidi step inside it or not -/
+theorem silf_call_keeps_stream (passes : Array Pass.PassT) (bPass : Nat) (c : Ctx) (lo hi : Nat) (dobidi : Bool) (fuel : Nat) (h : Pass.WF c.seg) {c' : Ctx}
+    (e : Pass.runPhase passes bPass c lo hi dobidi fuel = .ok (some c')) : Pass.WF c'.seg := Pass.runPhase_spec passes bPass c lo hi dobidi fuel h e
 
 /-- each single opcode keeps the invariant (the induction step of the above, exported for the audit) -/
 theorem every_opcode_keeps_stream : OpsPreserve PS := ops_PS
